@@ -248,6 +248,18 @@ Section RnStruct.
   Qed.
   Lemma sels_all_rn l : sels_all (map rn_sel l) = map rn_sel (sels_all l).
   Proof. unfold sels_all. apply flat_map_map_hom. intros x _. apply sel_all_rn. Qed.
+  Lemma root_typename_fields_of_rn x :
+    root_typename_fields_of (rn_sel x) = map rn_sel (root_typename_fields_of x).
+  Proof.
+    induction x as [p al n args dirs sp sels IH|p n dirs|p tc dirs sp sels IH] using selection_ind'.
+    - cbn [rn_sel root_typename_fields_of]. destruct (name_eqb n "__typename"); reflexivity.
+    - reflexivity.
+    - cbn [rn_sel root_typename_fields_of]. destruct tc as [tc|]; [reflexivity|].
+      apply flat_map_map_hom. intros x Hx. rewrite Forall_forall in IH. apply IH, Hx.
+  Qed.
+  Lemma root_typename_fields_rn l :
+    root_typename_fields (map rn_sel l) = map rn_sel (root_typename_fields l).
+  Proof. unfold root_typename_fields. apply flat_map_map_hom. intros x _. apply root_typename_fields_of_rn. Qed.
   Lemma def_sels_rn x : def_sels (rn_def x) = map rn_sel (def_sels x).
   Proof. destruct x; reflexivity. Qed.
   Lemma doc_selections_rn d : doc_selections (rn_doc d) = map rn_sel (doc_selections d).
@@ -643,7 +655,8 @@ Section RnRules.
       apply field_events_fields in Hin. cbn [fst] in Hin. cbn [rn_fe fst snd].
       rewrite (sel_name_field_rn ff fv f Hin). reflexivity.
     - rewrite operations_of_rn. apply existsb_map_hom. intros o _. cbn [C14_rename_proofs.rn_op o_kind o_sels].
-      destruct (o_kind o); try reflexivity. apply existsb_map_hom. intros [] _; reflexivity.
+      destruct (o_kind o); try reflexivity. rewrite root_typename_fields_rn.
+      destruct (root_typename_fields (o_sels o)); reflexivity.
   Qed.
   Lemma n_possible_fragment_spreads : v_possible_fragment_spreads s (rn_doc d) = v_possible_fragment_spreads s d.
   Proof.
